@@ -24,7 +24,7 @@ func init() {
 			"the scan result used as the reference has itself been compared with the model (same check, clause scan_ne_model)",
 			"files without leading magic cannot be opened by NewReader and are skipped",
 		},
-		batches: map[string]int{"quick": 48, "thorough": 400},
+		batches: map[string]int{"quick": 48, "thorough": 96},
 		checks:  map[string]int{"quick": 120, "thorough": 250},
 	}})
 }
